@@ -146,9 +146,8 @@ DiffAxes(p, o) == (IF p.v # o.v THEN {1} ELSE {}) \cup (IF p.vol # o.vol THEN {2
 LoudGeq(o, p) == o.v >= p.v /\ o.vol >= p.vol /\ o.expr >= p.expr /\ o.mv >= p.mv
 LoudEq(o, p) == o.v = p.v /\ o.vol = p.vol /\ o.expr = p.expr /\ o.mv = p.mv
 (* "carrier attenuation never increases when velocity, CC7, CC11 or master volume increases with
-   the others fixed": p and o differ in at most one of the four controls, everything else equal.
-   (No difference at all: both directions apply, i.e. the bytes must be equal.) *)
-MonoApplies(p, o) == SameCfg(p, o) /\ p.b = o.b /\ Cardinality(DiffAxes(p, o)) <= 1
+   the others fixed": p and o differ in exactly one of the four controls, everything else equal. *)
+MonoApplies(p, o) == SameCfg(p, o) /\ p.b = o.b /\ Cardinality(DiffAxes(p, o)) = 1
 MonoBad(p, o) ==
   IF ~MonoApplies(p, o) THEN {}
   ELSE LET up == LoudGeq(o, p)
@@ -157,7 +156,7 @@ MonoBad(p, o) ==
        IN IF (up /\ \E i \in cs : o.tl[i] > p.tl[i]) \/ (dn /\ \E i \in cs : o.tl[i] < p.tl[i]) THEN {"monotone"} ELSE {}
 
 \* "lower brightness never brightens": with everything else equal no operator gets less attenuation
-BrightApplies(p, o) == SameCfg(p, o) /\ LoudEq(p, o)
+BrightApplies(p, o) == SameCfg(p, o) /\ LoudEq(p, o) /\ p.b # o.b
 BrightBad(p, o) ==
   IF ~BrightApplies(p, o) THEN {}
   ELSE IF (o.b <= p.b /\ \E i \in 1..4 : o.tl[i] < p.tl[i]) \/ (o.b >= p.b /\ \E i \in 1..4 : o.tl[i] > p.tl[i]) THEN {"brightness"} ELSE {}
